@@ -189,16 +189,23 @@ func (f changeFinder) walkStruct(from, to *value) bool {
 
 	starts := make([]token.Pos, from.Len())
 	lastEnd := f.Pos
-	for i, f := range from.Children {
+	for i, c := range from.Children {
 		switch {
-		case f.IsNode:
+		case c.IsNode:
 			// If the field is a Node, its range begins when the Node starts.
-			starts[i] = f.Pos()
-			lastEnd = f.End()
-		case f.Type() == goast.PosType:
+			starts[i] = c.Pos()
+			lastEnd = c.End()
+
+			// Comments that trail the node (for example, the import
+			// comment of a package clause) belong to it, not to the
+			// field that follows.
+			if _, after := f.commentsFor(c); len(after) > 0 {
+				lastEnd = maxPos(lastEnd, after[len(after)-1].End())
+			}
+		case c.Type() == goast.PosType:
 			// If the field is a token.Pos, its range begins based on whatever
 			// its value is.
-			pos := f.Interface().(token.Pos)
+			pos := c.Interface().(token.Pos)
 			if pos.IsValid() {
 				starts[i] = pos
 			} else {
